@@ -424,13 +424,14 @@ func (s *stream) read(p []byte) (int, error) {
 
 // Endpoint is one end of a simulated connection; it implements net.Conn.
 type Endpoint struct {
-	Name   string
-	in     *stream
-	out    *stream
-	closed bool
-	Stats  *Stats
-	local  string
-	remote string
+	Name    string
+	in      *stream
+	out     *stream
+	closed  bool
+	linger0 bool
+	Stats   *Stats
+	local   string
+	remote  string
 }
 
 // PipeConfig configures both directions: AB is written by the first endpoint.
@@ -468,13 +469,39 @@ func (e *Endpoint) Write(p []byte) (int, error) {
 }
 
 // Close closes both directions at this end: the peer reads EOF after the
-// data already written, and its writes fail.
+// data already written, and its writes fail. After SetLinger(0) it is an abortive close: what
+// the peer has not read yet is discarded and the peer gets a reset (what TCP does with the send
+// queue, and on most systems with the peer's unread receive queue, when it sends RST).
 func (e *Endpoint) Close() error {
 	rt.Yield()
 	if e.closed {
 		return net.ErrClosed
 	}
+	if e.linger0 && e.out.queued > 0 {
+		rt.Reach("net.abortive-close-discarded-unread-data")
+		e.out.segs, e.out.queued = nil, 0
+		e.out.reset = true
+	}
 	e.Abort()
+	return nil
+}
+
+// SetLinger implements (*net.TCPConn).SetLinger: 0 makes Close abortive.
+func (e *Endpoint) SetLinger(sec int) error { e.linger0 = sec == 0; return nil }
+
+// SetNoDelay, SetKeepAlive, SetKeepAlivePeriod, SetReadBuffer, SetWriteBuffer implement the
+// corresponding (*net.TCPConn) methods; they do not change what the simulated socket delivers.
+func (e *Endpoint) SetNoDelay(bool) error                  { return nil }
+func (e *Endpoint) SetKeepAlive(bool) error                { return nil }
+func (e *Endpoint) SetKeepAlivePeriod(time.Duration) error { return nil }
+func (e *Endpoint) SetReadBuffer(int) error                { return nil }
+func (e *Endpoint) SetWriteBuffer(int) error               { return nil }
+
+// CloseWrite implements (*net.TCPConn).CloseWrite: the peer reads EOF after what was written.
+func (e *Endpoint) CloseWrite() error {
+	rt.Yield()
+	e.out.closedW = true
+	wake(&e.out.rwait)
 	return nil
 }
 
